@@ -44,6 +44,8 @@ def check(ctx, R):
         # a reply that overtakes the OKAY for the LIST / STAT request is part of the reply stream ("any packetisation")
         from .c10 import _nd_own as early_reply_rules
         early_reply_rules(ctx, R, roles, T)
+        from .c07 import _flush_before_read          # the LIST / STAT request must be on the wire before the reply is awaited, wherever the reply lands
+        _flush_before_read(ctx, R, roles, T)
     R.assume("the record reader returns (id, header fields between id and length, payload) - checked in C08")
 
 
